@@ -167,7 +167,8 @@ def run_unit(unit, tier, keep=False, verbose=False):
         res['defs'] = defs
         entry = 'h_' + re.sub(r'[^A-Za-z0-9_]', '_', unit['name'])
         a_gb = os.path.join(work, 'a.gb')
-        tmo = unit['timeout'][1 if tier == 'thorough' else 0]
+        # unit timeouts were measured on an idle 16-core box; the check harness is 2-3x slower and runs units in parallel
+        tmo = int(unit['timeout'][1 if tier == 'thorough' else 0] * float(os.environ.get('VERIF_TIMEOUT_SCALE', '4')))
         # 1. compile
         cmd = ['goto-cc'] + GOTO_CC_FLAGS + ['-DHARNESS=hbody', '--function', entry, tu]
         for l in unit['link']:
